@@ -37,7 +37,7 @@ PYEXN_COQ = {"AttributeError": "AttributeError", "ValueError": "ValueError", "Ty
              "NotImplementedError": "NotImplementedError"}
 EXPLAIN = ("outcome encoding: [10,c] built by class c._from_json | [11,d] built by registered deserialiser d | "
            "[20,k] JSONSerializationError subclass k (1 Missing 2 InvalidFormat 3 UnknownModule 4 ClassNotFound 6 NotDeserializable) | "
-           "[30,k] foreign exception escaped (101 Attribute 102 Value 103 Type 104 Key 105 Import 106 ModuleNotFound 107 NotImplemented 199 other) | [99,..] unexpected object")
+           "[52,a,b] a plain call gave a but the same call inside a @contextmanager `with` block gave b | [30,k] foreign exception escaped (101 Attribute 102 Value 103 Type 104 Key 105 Import 106 ModuleNotFound 107 NotImplemented 199 other) | [99,..] unexpected object")
 UUID0 = "00000000-0000-0000-0000-000000000005"
 
 
@@ -179,6 +179,16 @@ def world():
 
     sub.__path__ = []
     sys.meta_path.append(BrokenFinder())
+    # a module with a PEP 562 module-level __getattr__ that lazily imports a missing optional dependency: finding C19-g
+    lazy = types.ModuleType("c19w.lazy")
+
+    def _lazy_getattr(name):
+        if name == "Present":
+            return SerA
+        importlib.import_module("c19_optional_dependency_not_installed")
+    lazy.__getattr__ = _lazy_getattr
+    sys.modules["c19w.lazy"] = lazy
+    pk.lazy = lazy
     # registration history for the deserialiser side: a first from_json of the tag is refused, then the type is registered
     LateReg = type("LateReg", (), {"__module__": "c19w.sub"})
     setattr(sub, "LateReg", LateReg)
@@ -360,6 +370,9 @@ def known_finding_of(d, pr, im):
     imports = [r for _, r in pr.get("imports", [])]
     if ("exn", "RecursionError") in imports and im == [30, 108]:
         return "C19-d"          # hundreds of dotted names: RecursionError from importlib escapes
+    attrs = [r for _, _, r in pr.get("attrs", [])]
+    if ("exn", "ModuleNotFoundError") in attrs and im == [30, PYEXN["ModuleNotFoundError"]]:
+        return "C19-g"          # module-level __getattr__ raising ModuleNotFoundError: escapes from getattr
     if pr.get("unhashable") and im == [30, PYEXN["TypeError"]]:
         return "C19-f"          # unhashable class: TypeError from the registry's dict lookup
     return None
@@ -376,11 +389,32 @@ def run_impl(descr) -> Any:
     """Deserialise the document (through real JSON text) with the implementation; canonical outcome."""
     from krrood.adapters.json_serializer import SubclassJSONSerializer, from_json, deserialize_uuid
     world()
-    try:
-        text = json.dumps(document(descr))
-        r = from_json(json.loads(text))
-    except BaseException as e:  # noqa
-        return exn_code(e)
+    import contextlib
+
+    @contextlib.contextmanager
+    def scope():
+        # a generator-based context manager: contextlib re-throws the exception into the generator and afterwards assigns
+        # exc.__traceback__ -- ordinary library handling of a propagating exception, which the error classes must survive
+        yield
+
+    text = json.dumps(document(descr))
+
+    def call(inside: bool):
+        try:
+            if inside:
+                with scope():
+                    return ("ok", from_json(json.loads(text)))
+            return ("ok", from_json(json.loads(text)))
+        except BaseException as e:  # noqa
+            return ("exn", exn_code(e))
+
+    direct, scoped = call(False), call(True)
+    if direct[0] == "exn" or scoped[0] == "exn":
+        if direct[0] != scoped[0] or (direct[0] == "exn" and direct[1] != scoped[1]):
+            # what the caller receives differs between a plain call and a call inside a `with` block
+            return [52, direct[1] if direct[0] == "exn" else [0], scoped[1] if scoped[0] == "exn" else [0]]
+        return direct[1]
+    r = direct[1]
     if isinstance(r, SubclassJSONSerializer):
         return [10, INTERN(type(r))]
     if isinstance(r, Marker):
@@ -462,6 +496,7 @@ def tag_table(tier: str, seed: int) -> List[dict]:
              "multiprocessing.popen_spawn_win32.Popen", "multiprocessing.popen_spawn_win32", "c19w.sub.LateReg",
              # modules whose import raises ImportError (former C19-c), findings C19-d (hundreds of dotted names), C19-f (unhashable class)
              "c19w.importerr.X", "c19w.importerr", "c19w.importerr.a.B", "c19w.fromerr.X", "encodings.mbcs.X", "asyncio.windows_events.X",
+             "c19w.lazy.Missing", "c19w.lazy.Present", "c19w.lazy.Missing.Inner",
              "a." * 600 + "B", "uuid." + "UUID." * 600 + "B", "c19w.sub.Unhashable",
              # nested classes, and attribute paths through classes / non-classes
              "c19w.sub.Outer.Inner", "c19w.sub.Outer.Mid.Deep", "c19w.sub.Outer.Mid", "c19w.sub.Outer", "c19w.sub.Outer.nosuch",
